@@ -1,14 +1,15 @@
 package main
 
 import (
-	"io"
 	"bytes"
 	"fmt"
+	"io"
 	"math/big"
 	"reflect"
 	"runtime"
 	"sort"
 	"sync"
+	"time"
 
 	"github.com/datastax/go-cassandra-native-protocol/compression/lz4"
 	"github.com/datastax/go-cassandra-native-protocol/compression/snappy"
@@ -100,16 +101,28 @@ func valueJob(codec datacodec.Codec, name string, v interface{}, version primiti
 
 // slowWriter copies what it is given in small pieces, yielding in between: a destination like a pipe or a socket, during whose
 // Write the codec's caller is still reading the codec's output buffer
-type slowWriter struct{ buf bytes.Buffer }
+type slowWriter struct {
+	buf   bytes.Buffer
+	piece int           // bytes taken at a time (64 when zero)
+	nap   time.Duration // pause between pieces (a yield when zero)
+}
 
 func (w *slowWriter) Write(p []byte) (int, error) {
-	for i := 0; i < len(p); i += 64 {
-		j := i + 64
+	piece := w.piece
+	if piece == 0 {
+		piece = 64
+	}
+	for i := 0; i < len(p); i += piece {
+		j := i + piece
 		if j > len(p) {
 			j = len(p)
 		}
 		w.buf.Write(p[i:j])
-		runtime.Gosched()
+		if w.nap > 0 {
+			time.Sleep(w.nap)
+		} else {
+			runtime.Gosched()
+		}
 	}
 	return len(p), nil
 }
@@ -258,6 +271,29 @@ func runC18(res *lp.Result) {
 			}})
 		}
 	}
+	// big bodies: every goroutine compresses and restores several MiB through the shared compressors, into a destination that is slow
+	// to take them, so that the calls overlap in time — what one call may use must not depend on what the others hold at that moment
+	for g := 0; g < goroutines && g < 5; g++ {
+		n := 6<<20 + g*4096
+		in := bytes.Repeat([]byte(fmt.Sprintf("goroutine %d row %d |", g, n)), n/24+1)[:n]
+		for _, cj := range []struct {
+			name string
+			c    frame.BodyCompressor
+		}{{"snappy", snappy.Compressor{}}, {"lz4", lz4.Compressor{}}}[g%2 : g%2+1] {
+			cj := cj
+			jobs[g] = append(jobs[g], c18Job{descr: fmt.Sprintf("%s big body %d bytes", cj.name, n), run: func() string {
+				var z bytes.Buffer
+				if err := cj.c.CompressWithLength(bytes.NewReader(in), &z); err != nil {
+					return "compress-err " + firstWords(err.Error())
+				}
+				out := &slowWriter{piece: 64 << 10, nap: time.Millisecond}
+				if err := cj.c.DecompressWithLength(bytes.NewReader(z.Bytes()), out); err != nil {
+					return "decompress-err " + firstWords(err.Error())
+				}
+				return fmt.Sprintf("%d compressed bytes | restored=%v", z.Len(), bytes.Equal(out.buf.Bytes(), in))
+			}})
+		}
+	}
 	// sequential reference
 	expected := make([][]string, goroutines)
 	for g := range jobs {
@@ -290,7 +326,7 @@ func runC18(res *lp.Result) {
 				if got[g][k] != expected[g][k] {
 					res.Add(lp.Finding{Kind: "violation", What: "concurrent call returns a different result than the same call made sequentially: " + firstWord(jobs[g][k].descr),
 						Input: fmt.Sprintf("seed=%d round=%d goroutine=%d job=%d %s", *seed, round, g, k, jobs[g][k].descr),
-						Impl: trunc(got[g][k]), Model: trunc(expected[g][k])})
+						Impl:  trunc(got[g][k]), Model: trunc(expected[g][k])})
 				}
 			}
 		}
